@@ -63,8 +63,10 @@ func (g *Gen) cursor(table string) *int64 {
 	return v
 }
 
-func (g *Gen) pid() string  { return pick(g.r, "p0", "p1", "p2", "p3", "a.x", "a.y") }
-func (g *Gen) sid() string  { return pick(g.r, "s0", "s1", "s2") }
+func (g *Gen) pid() string {
+	return pick(g.r, "p0", "p1", "p2", "p3", "a.x", "a.y", "p0", "p1", "p2", "a.x", "P1", "A.x", "a_x", "a%x", `a\x`, "axx")
+}
+func (g *Gen) sid() string  { return pick(g.r, "s0", "s1", "s2", "s0", "s1", "S1", "s_1") }
 func (g *Gen) res() string  { return pick(g.r, "r0", "r1") }
 func (g *Gen) exec() string { return pick(g.r, "e1", "e2", "e3") }
 func (g *Gen) proc() string { return pick(g.r, "w1", "w2") }
@@ -204,7 +206,7 @@ func (g *Gen) CommandOf(k t_aio.StoreKind) *t_aio.Command {
 	case t_aio.SearchPromises:
 		sortId := g.cursor("P")
 		st := [][]promise.State{{promise.Pending}, {promise.Resolved}, {promise.Rejected, promise.Canceled, promise.Timedout}, {promise.Pending, promise.Resolved, promise.Rejected, promise.Canceled, promise.Timedout}, {}}
-		c.SearchPromises = &t_aio.SearchPromisesCommand{Id: pick(g.r, "*", "p*", "*1", "a.*", "*.*", "p2", "*p*"), States: st[g.r.Intn(len(st))], Tags: pick(g.r, map[string]string{}, map[string]string{"k": "v1"}, map[string]string{"k": "v2", "j": "w"}), Limit: pick(g.r, 0, 1, 2, 100), SortId: sortId}
+		c.SearchPromises = &t_aio.SearchPromisesCommand{Id: pick(g.r, "*", "p*", "*1", "a.*", "*.*", "p2", "*p*", "a_x", "a%x", "A*", `a\*`, "a_*", "*%*", `*\x`), States: st[g.r.Intn(len(st))], Tags: pick(g.r, map[string]string{}, map[string]string{"k": "v1"}, map[string]string{"k": "v2", "j": "w"}), Limit: pick(g.r, 0, 1, 2, 100), SortId: sortId}
 	case t_aio.CreatePromise:
 		c.CreatePromise = g.createPromise()
 	case t_aio.UpdatePromise:
@@ -220,7 +222,7 @@ func (g *Gen) CommandOf(k t_aio.StoreKind) *t_aio.Command {
 		c.ReadSchedules = &t_aio.ReadSchedulesCommand{NextRunTime: g.i64(), Limit: pick(g.r, 0, 1, 2, 100)}
 	case t_aio.SearchSchedules:
 		sortId := g.cursor("S")
-		c.SearchSchedules = &t_aio.SearchSchedulesCommand{Id: pick(g.r, "*", "s*", "*1", "s2"), Tags: pick(g.r, map[string]string{}, map[string]string{"k": "v1"}), Limit: pick(g.r, 0, 1, 2, 100), SortId: sortId}
+		c.SearchSchedules = &t_aio.SearchSchedulesCommand{Id: pick(g.r, "*", "s*", "*1", "s2", "S*", "s_*", "s_1"), Tags: pick(g.r, map[string]string{}, map[string]string{"k": "v1"}), Limit: pick(g.r, 0, 1, 2, 100), SortId: sortId}
 	case t_aio.CreateSchedule:
 		v := g.value()
 		c.CreateSchedule = &t_aio.CreateScheduleCommand{Id: g.sid(), Description: pick(g.r, "", "desc"), Cron: pick(g.r, "* * * * *", "@every 1s"), Tags: g.tags(), PromiseId: "x.{{.timestamp}}", PromiseTimeout: g.i64(), PromiseParam: v, PromiseTags: g.tags(), NextRunTime: g.i64(), IdempotencyKey: g.key(), CreatedOn: g.t()}
